@@ -118,6 +118,12 @@ FIRST = [
     "Select(ds, lambda {A}: First({A}.so_jets).so_trk)",
     "Where(ds, lambda {A}: First(Select({A}.so_jets, lambda {C}: ({C}.i_pt, {A}.i_eta)))[1] > 2)",
     "Select(Select(ds, lambda {A}: ({A}.so_jets, {A}.i_pt)), lambda {B}: First({B}[0]).i_pt + {B}[1])",
+    # a method call WITH arguments on First(...), inside an inner lambda that may re-use a live outer name, the argument arriving through a called lambda
+    "Select(ds, lambda {A}: (lambda {P}: Select({A}.so_jets, lambda {C}: First({C}.so_trk).mi_pt({P})))({A}.i_eta))",
+    "Select(ds, lambda {A}: (lambda {P}: Select({A}.so_jets, lambda {C}: First({C}.so_trk).mi_e(2, k={P})))({A}.i_eta))",
+    "Select(ds, lambda {A}: (lambda {P}: Select({A}.so_jets, lambda {C}: First({C}.so_trk).mi_e(k=3, q={P}.i_pt)))({A}))",
+    "Select(ds, lambda {A}: (lambda {P}: Select({A}.so_jets, lambda {C}: First(Where({C}.so_trk, lambda {B}: {B}.i_pt > 0)).mi_pt({P} + 1)))({A}.i_eta))",
+    "Select(ds, lambda {A}: (lambda {P}: Select({A}.so_jets, lambda {C}: First(Select({C}.so_trk, lambda {B}: ({B}.i_pt, {P})))[1]))({A}.i_eta))",
 ]
 
 LITERAL = [
